@@ -39,6 +39,17 @@ def cases(rng, tier):
         for a, b in ((1, 1), (2, 1), (1, 3), (3, 3), (5, 2), (18, 1), (1, 18)):
             for rep in range(3):
                 yield Case(block(gen.spell(gen.arrange((a, b, n0), rng), rng)), {"kind": "boundary"})
+    # every composition up to 16 residues once (kappa depends on delta-max of EVERY composition) ...
+    for comp in gen.compositions(16 if tier == "quick" else 26, lo=6):
+        if comp[0] + comp[1] > 0:
+            yield Case(block(gen.spell(gen.arrange(comp, rng), rng)), {"kind": "composition"})
+    # ... and lopsided compositions around the regime boundaries of the delta-max search (no neutrals; 17..19 and many neutrals)
+    for k in (8, 13, 14, 15, 19, 24, 30):
+        for m in (1, 2, 3):
+            for comp in ((k, m, 0), (m, k, 0), (k, m, 18), (m, k, 18), (k, m, 19), (m, k, 25)):
+                # the minority residues in the interior of the chain
+                pat = gen.arrange(comp, rng)
+                yield Case(block(gen.spell(pat, rng)), {"kind": "lopsided"})
     # E18 + K + G arrangements called out in the property
     for rep in range(10):
         yield Case(block(gen.spell(gen.arrange((1, 18, 1), rng), rng, plain=True)), {"kind": "E18KG"})
